@@ -7,6 +7,7 @@ import HdVerif.Generated.TC03segvol
 import HdVerif.Generated.TC03imgvol
 import HdVerif.Generated.TC03wireV
 import HdVerif.Generated.TC03wireI
+import HdVerif.Generated.TC03wireS
 /-! # Geometry of derived images (C03)
 
 Executable model over `Rat` of how highdicom places a derived image in space:
@@ -461,6 +462,15 @@ deriving Repr
 TotalPixelMatrixOriginSequence, orientation and measures are the volume's -/
 def storeTiled (g : Geom) : TiledAttrs :=
   { origin := planePosition g 0, rowCos := g.d2, colCos := g.d1, psRow := g.s1, psCol := g.s2, sbs := some g.s0 }
+
+/-- TotalPixelMatrixOriginSequence of a tiled segmentation whose total pixel matrix the user places at `user`
+(single PlanePositionSequence or SLIDE volume): the source's origin `src` is copied when the locations count as
+preserved — translated `Gen.originPreserved`, same orientation, same pixel spacing, same tile size — otherwise
+the recorded origin is the position of the tile at (1, 1), i.e. the user's position. -/
+def recordedTiledOrigin (user src : V3) (sameOrientation sameSpacing sameTiles : Bool) : Except ErrKind V3 :=
+  match originPreserved user.x user.y user.z src.x src.y src.z with
+  | .error e => .error e
+  | .ok op => if op && sameOrientation && sameSpacing && sameTiles then .ok src else .ok user
 
 /-- `get_volume_geometry()` of a stacked image: the default request of `_get_stacked_volume_geometry` -/
 def volumeGeometryStack (st : Stack) (rows cols : Int) (allowMissing : Bool) : Except ErrKind StackGeom :=
